@@ -7,7 +7,9 @@ META = {
     "property_id": "C19",
     "technique": "Coq proof over a Gallina model of internal/project/config.go (writer, go-toml's string encoder as "
                  "called, a decoder for the emitted grammar, version validation, CleanPath; the file WriteConfigFile leaves as a "
-                 "function of the destination's previous state) + generated-configuration correspondence + rewrite-in-place oracle",
+                 "function of the destination's previous state; a process writing and loading several files under several spellings of "
+                 "their paths; the load-resolve-write of dawn get / dawn tidy) + generated-configuration correspondence + "
+                 "rewrite-in-place, session and command oracles (get/tidy run in-process against a simulated network)",
     "level_text": "Theorems (Coq, unbounded): for every valid configuration (strings valid UTF-8 - arbitrary Unicode, quotes "
                   "and control characters - requirement versions canonical semver, paths in clean form) load(write c) = c and "
                   "hence write(load(write c)) = write c; the string encoder/decoder pair round-trips every UTF-8 string and "
@@ -21,7 +23,14 @@ META = {
                   "written over the previous one's file and over a hand-written layout of itself (comments, alignment, sub-tables, "
                   "CRLF, compact), 16 base configurations over ~28 previous states each (absent, empty, identical, own bytes + tail, "
                   "truncated, superset/subset serialisations, random bytes of every relative length, 64 KiB, symbolic link), and "
-                  "load-modify-write histories on one path; oracle: bytes at the path = bytes of a fresh write, and they load back.",
+                  "load-modify-write histories on one path; oracle: bytes at the path = bytes of a fresh write, and they load back. "
+                  "One process, many paths: theorems load_sees_last_write / file_is_last_write / spelling_irrelevant (a load yields the "
+                  "last configuration written to the FILE, through whatever spelling, whatever the process did before); ~230 sessions "
+                  "of writes and loads over 3 files x 16 spellings (uncleaned, relative, through directory/file symbolic links, a hard "
+                  "link) incl. every ordered pair of spellings of one file, changes of directory and a re-pointed link. get/tidy: "
+                  "theorem command_loses_nothing; ~350 in-process runs of the two commands (every command line of a 50-entry "
+                  "catalogue x network up/down x layouts, special and random projects): the file afterwards loads as the "
+                  "configuration before with the requirements resolution yields, or unchanged when the command failed.",
     "level_note": "Trusted: Coq kernel. go-toml v2 (encoder as called by dawn; decoder on the grammar the writer emits), "
                   "golang.org/x/mod/semver and path.Clean are third-party: modelled, validated by the correspondence only. "
                   "The model decoder covers only documents the writer produces; hand-edited dawn.toml files are out of scope. "
@@ -89,7 +98,9 @@ def run(ctx):
         env = {"VERIF_OUT": out, "VERIF_SEED": str(ctx.seed + 1000 * k), "VERIF_NRAND": "300" if ctx.quick() else "1500",
                "VERIF_MAXPATH": "4" if ctx.quick() else "5",
                # rewriting in place: random base configurations for the previous-state family, get/tidy histories
-               "VERIF_NBASE": "8" if ctx.quick() else "30", "VERIF_NCHAIN": "40" if ctx.quick() else "200"}
+               "VERIF_NBASE": "8" if ctx.quick() else "30", "VERIF_NCHAIN": "40" if ctx.quick() else "200",
+               # one process, several files and spellings: random sessions on top of the enumerated ones
+               "VERIF_NSESSION": "60" if ctx.quick() else "400"}
         rc, o = ctx.go_overlay_test("internal/project",
                                     {"zz_verif_c19_test.go": os.path.join(HARNESS, "overlay/internal/project/zz_verif_c19_test.go")},
                                     "^TestVerifC19$", env)
@@ -97,6 +108,22 @@ def run(ctx):
             ctx.log(o[-3000:])
             ctx.violation("config harness failed to build or run against /repo (exit %d)" % rc,
                           {"theorem_or_correspondence": "C19 correspondence harness", "output": o[-3000:]}, found_input=False)
+            return
+        recs += [json.loads(l) for l in open(out)]
+        # the commands that rewrite dawn.toml (cmd/dawn/get.go, tidy.go), in-process against a simulated network.  The harness
+        # imports packages of modules that are already requirements of /repo; a private copy of go.mod/go.sum (-modfile)
+        # makes sure that `go` cannot touch /repo's own whatever it decides about direct/indirect requirements.
+        import shutil
+        for fn in ("go.mod", "go.sum"):
+            shutil.copy(os.path.join(REPO, fn), os.path.join(ctx.tmp, "c19-" + fn))
+        env = {"VERIF_OUT": out, "VERIF_SEED": str(ctx.seed + 1000 * k), "VERIF_NCMD": "60" if ctx.quick() else "300"}
+        rc, o = ctx.go_overlay_test("cmd/dawn",
+                                    {"zz_verif_c19_cmd_test.go": os.path.join(HARNESS, "overlay/cmd/dawn/zz_verif_c19_cmd_test.go")},
+                                    "^TestVerifC19Cmd$", env, extra=["-modfile=" + os.path.join(ctx.tmp, "c19-go.mod")])
+        if rc != 0:
+            ctx.log(o[-3000:])
+            ctx.violation("get/tidy harness failed to build or run against /repo (exit %d)" % rc,
+                          {"theorem_or_correspondence": "C19 command harness", "output": o[-3000:]}, found_input=False)
             return
         recs += [json.loads(l) for l in open(out)]
 
@@ -113,7 +140,7 @@ def run(ctx):
 
     nvalid = 0
     stats = {}
-    rwstats, notes = {}, []
+    rwstats, notes, cmdstats = {}, [], {}
     for r in recs:
         if r["t"] == "ORACLE":
             oracles.append(r)
@@ -129,10 +156,26 @@ def run(ctx):
         elif r["t"] == "rwstats":
             for k, v in r["counts"].items():
                 rwstats[k] = rwstats.get(k, 0) + v
+        elif r["t"] == "NOTE" and r["name"].startswith("skip:"):
+            cmdstats["note:" + r["name"]] = cmdstats.get("note:" + r["name"], 0) + 1
         elif r["t"] == "NOTE":
             notes.append(r)
         elif r["t"] == "session":
             add(cq_session(r), r, "session:" + r["kind"])
+        elif r["t"] == "cmdstats":
+            for k, v in r["counts"].items():
+                cmdstats[k] = cmdstats.get(k, 0) + v
+        elif r["t"] == "cmd":
+            # the model's decoder reads the writer's own grammar only: commands on a hand-written dawn.toml are under the
+            # oracle, not in the correspondence.  resolved = what resolution yields for this command line (recomputed by
+            # the harness); a run whose outcome and recomputation disagree about success is not compared (counted)
+            if (r["err"] is None) != (r["resolved"] is not None):
+                cmdstats["not-compared:outcome-and-recomputation-disagree"] = cmdstats.get("not-compared:outcome-and-recomputation-disagree", 0) + 1
+            elif r["canonical"]:
+                res = "None" if r["resolved"] is None else "(Some %s)" % cq_list(
+                    ["(mkReq %s %s %s)" % (hb(n), hb(p), hb(v)) for n, p, v in r["resolved"]], "req")
+                add("CCommand (Some %s) %s (Some %s)" % (hb(r["before"]), res, hb(r["after"])), r,
+                    "command:" + ("failed" if r["err"] else "succeeded"))
         elif r["t"] == "rw":
             # the file at a path that was in state `old` (None = absent) after WriteConfigFile(path, cfg)
             add("CRewrite %s %s %s" % ("None" if r["old"] is None else "(Some %s)" % hb(r["old"]), cq_cfg(r["cfg"]), hb(r["bytes"])),
@@ -172,6 +215,21 @@ def run(ctx):
                                rwstats.get("onto:shorter"), rwstats.get("onto:same-length"), rwstats.get("onto:absent"),
                                rwstats.get("family:history")))
     ctx.coverage["rewrite_in_place"] = rwstats
+    ctx.coverage["sessions"] = {
+        "sessions": rwstats.get("sessions"), "by_family": {k[8:]: v for k, v in rwstats.items() if k.startswith("session:")},
+        "operations": {k[11:]: v for k, v in rwstats.items() if k.startswith("session-op:")},
+        "rule": "one session = WriteConfigFile / LoadConfigFile calls of ONE process in a fresh directory over 3 files and 16 spellings "
+                "(clean, dir/./, dir//, dir/sub/.., through a directory link, a file link, a hard link, relative, ./relative, a "
+                "re-pointed link), with changes of the working directory; enumerated: every ordered pair (load spelling, write "
+                "spelling) of one file, a load before the first write, one spelling naming two files; oracle at every load of a "
+                "file written in the session: it returns the last configuration written to that file, the file holds the bytes "
+                "of a fresh write, writing what was loaded reproduces them; every session is also a CSession case of the model"}
+    ctx.coverage["get_and_tidy"] = dict(cmdstats, rule=(
+        "one run = RunE of `dawn get` / `dawn tidy` in-process on a generated project (canonical or hand-written dawn.toml) with "
+        "$HOME in a scratch directory and https/ssh served by an in-process git server over repositories built by the harness "
+        "(network up or down, module cache warm or cold); oracle: the file afterwards loads as the configuration before with "
+        "the requirements that mvs.Get/UpgradeAll/Tidy yield for that command line (recomputed), or as the configuration "
+        "before when the command failed, and writing what it loads as reproduces its bytes"))
     ctx.coverage["exhaustive"] = False
     ctx.coverage["correspondence"]["distribution"] = dist
     ctx.add_samples([{"config": show_cfg(r["cfg"]), "bytes": bytes.fromhex(r["bytes"]).decode("utf-8", "backslashreplace")}
@@ -184,6 +242,25 @@ def run(ctx):
     for name, rs in groups.items():
         r = min(rs, key=lambda x: len(x["bytes"]) + len(x.get("old") or "") + len(json.dumps(x["cfg"])))
         shrunk = show_cfg(r["orig"]) if r.get("orig") and r["orig"] != r["cfg"] else None
+        if "command" in r:   # dawn get / dawn tidy: the failing input is the project, the command line and the environment
+            cm = r["command"]
+            ctx.violation("implementation violates C19 oracle %s: `%s` (network %s, %s dawn.toml) on %s: %s (%d failing runs)"
+                          % (name, cm["line"], "up" if cm["net"] else "down", cm["layout"], show_cfg(cm["cfg"]), r["detail"][:200], len(rs)),
+                          {"oracle": name, "command_line": cm["line"], "network": "up" if cm["net"] else "down (every dial fails)",
+                           "module_cache": ("lacks " + cm["cache_lacks"]) if cm["cache_lacks"] else "complete", "dawn_toml_layout": cm["layout"],
+                           "dawn_toml_before": txt(cm["before"]), "dawn_toml_before_hex": cm["before"],
+                           "loads_before_as": show_cfg(cm["cfg"]), "command_error": cm["err"],
+                           "requirements_resolution_yields": None if cm["resolved"] is None else
+                               {txt(n): {"path": txt(p), "version": txt(v)} for n, p, v in cm["resolved"]},
+                           "dawn_toml_after": txt(cm["after"]), "dawn_toml_after_hex": cm["after"],
+                           "loads_after_as": show_cfg(r["loaded_after"]) if r.get("loaded_after") else None,
+                           "detail": r["detail"], "found_in": r.get("from"),
+                           "how": "write dawn_toml_before to <root>/dawn.toml, point the workspace at <root>, run the command's RunE "
+                                  "with the universe of harness/overlay/cmd/dawn/zz_verif_c19_cmd_test.go served in-process; "
+                                  "LoadConfigFile(<root>/dawn.toml) must give loads_before_as with the requirements resolution yields "
+                                  "(unchanged if the command failed)"},
+                          key=name)
+            continue
         if "session" in r:   # a process: the failing input is the sequence of operations
             se = r["session"]
             ctx.violation("implementation violates C19 oracle %s: after %s (%d failing sessions)"
@@ -264,6 +341,10 @@ def run(ctx):
                 return {"case": cases[i].split(" ")[0], "kind": d["kind"], "config": show_cfg(d["cfg"]),
                         "bytes": bytes.fromhex(d["bytes"]).decode("utf-8", "backslashreplace"),
                         "loaded": None if d["lerr"] else show_cfg(d["loaded"])}
+            if d["t"] == "cmd":
+                return {"case": "CCommand", "command_line": d["line"], "network_up": d["net"], "command_error": d["err"],
+                        "dawn_toml_before": txt(d["before"]), "dawn_toml_after": txt(d["after"]),
+                        "resolved": None if d["resolved"] is None else [[txt(x) for x in q] for q in d["resolved"]]}
             if d["t"] == "session":
                 return {"case": "CSession", "kind": d["kind"], "operations": show_ops(d["ops"]), "files_left": d["final"]}
             if d["t"] == "rw":
